@@ -146,3 +146,44 @@ def leaves(c):
                 if isinstance(y, tuple):
                     out |= leaves(y)
     return out
+
+
+def linform(e, env=None):
+    """Linear form {leaf name: coefficient, 1: constant} of an integer expression built from + - and multiplication by
+    constants over leaves (names, self attributes); None if not linear.  Locals in env are substituted first."""
+    if env:
+        e = subst(e, env)
+
+    def go(x):
+        if isinstance(x, ast.Constant) and isinstance(x.value, int) and not isinstance(x.value, bool):
+            return {1: x.value}
+        if isinstance(x, ast.BinOp) and isinstance(x.op, (ast.Add, ast.Sub)):
+            a, b = go(x.left), go(x.right)
+            if a is None or b is None:
+                return None
+            out = dict(a)
+            for k, v in b.items():
+                out[k] = out.get(k, 0) + (v if isinstance(x.op, ast.Add) else -v)
+            return out
+        if isinstance(x, ast.UnaryOp) and isinstance(x.op, ast.USub):
+            a = go(x.operand)
+            return None if a is None else {k: -v for k, v in a.items()}
+        if isinstance(x, ast.BinOp) and isinstance(x.op, ast.Mult):
+            a, b = go(x.left), go(x.right)
+            if a is None or b is None:
+                return None
+            if set(a) <= {1}:
+                return {k: v * a.get(1, 0) for k, v in b.items()}
+            if set(b) <= {1}:
+                return {k: v * b.get(1, 0) for k, v in a.items()}
+            return None
+        if isinstance(x, ast.Call) and pyfront.call_name(x) in CASTS and len(x.args) == 1:
+            return go(x.args[0])
+        c = canon(x)
+        if c[0] == "leaf":
+            return {c[1]: 1}
+        return None
+    out = go(e)
+    if out is None:
+        return None
+    return {k: v for k, v in out.items() if v != 0 or k == 1}
